@@ -161,7 +161,70 @@ func (c *Ctx) deepLeaves(fn *ssa.Function, isRead bool) (out []leaf, ok bool, wh
 		}
 		return false
 	}
+	// boundedRun: the bytes read through a bounded view (io.LimitReader call or
+	// io.LimitedReader literal) of the stream are one variable-length run of n
+	// bytes, named by the field the bytes end up in
+	boundedRun := func(view dval, at *ssa.Call, n Affine) {
+		e := &codecEntry{call: at, what: "bytes", width: -1, order: "-", lenAff: &n, lenOf: n.String()}
+		name := "bytes"
+		for _, dj := range d.order {
+			rc, isC := dj.i.(*ssa.Call)
+			if !isC {
+				continue
+			}
+			rid := ir.CallID(rc)
+			if rid != "io.ReadAll" && rid != "bytes.Buffer.ReadFrom" && rid != "io.Copy" && rid != "io.CopyN" {
+				continue
+			}
+			rargs := ir.CallArgs(rc)
+			for _, a := range rargs {
+				if !d.objectOf(a, dj.fr).same(view) {
+					continue
+				}
+				if e.call == nil {
+					e.call = rc
+				}
+				if f := d.fieldSink(dval{rc, dj.fr}, 0); f != "" {
+					name = f
+				}
+				// ReadFrom / Copy into a buffer: the bytes are what the buffer's Bytes() hands out
+				if rid != "io.ReadAll" && len(rargs) > 0 {
+					dst := d.objectOf(rargs[0], dj.fr)
+					for _, dk := range d.order {
+						bc, isB := dk.i.(*ssa.Call)
+						if isB && ir.CallID(bc) == "bytes.Buffer.Bytes" && d.objectOf(bc.Call.Args[0], dk.fr).same(dst) {
+							if f := d.fieldSink(dval{bc, dk.fr}, 0); f != "" {
+								name = f
+							}
+						}
+					}
+				}
+			}
+		}
+		out = append(out, leaf{id: name, width: -1, order: "-", src: e})
+	}
 	for _, di := range d.order {
+		if st, isSt := di.i.(*ssa.Store); isSt && isRead && !excluded(di.fr) {
+			// io.LimitedReader{R: stream, N: n}
+			if fa, isFA := st.Addr.(*ssa.FieldAddr); isFA && ir.FieldID(fa) == "io.LimitedReader.R" && isStream(st.Val, di.fr) {
+				obj := d.objectOf(fa.X, di.fr)
+				var nv dval
+				cnt := 0
+				for _, dj := range d.order {
+					if s2, ok := dj.i.(*ssa.Store); ok {
+						if f2, ok := s2.Addr.(*ssa.FieldAddr); ok && ir.FieldID(f2) == "io.LimitedReader.N" && d.objectOf(f2.X, dj.fr).same(obj) {
+							nv, cnt = dval{s2.Val, dj.fr}, cnt+1
+						}
+					}
+				}
+				if cnt != 1 {
+					fail("a LimitedReader over the stream whose limit is not set exactly once")
+					continue
+				}
+				boundedRun(obj, nil, d.affine(nv.v, nv.fr, nil, 0))
+			}
+			continue
+		}
 		call, isCall := di.i.(*ssa.Call)
 		if !isCall {
 			continue
@@ -256,28 +319,7 @@ func (c *Ctx) deepLeaves(fn *ssa.Function, isRead bool) (out []leaf, ok bool, wh
 				}
 			}
 		case id == "io.LimitReader" && isRead && si == 0:
-			// a bounded view of the stream: the bytes read through it are one variable run
-			n := d.affine(args[1], di.fr, nil, 0)
-			e := &codecEntry{call: call, what: "bytes", width: -1, order: "-", lenAff: &n, lenOf: n.String()}
-			name := "bytes"
-			for _, dj := range d.order {
-				rc, isC := dj.i.(*ssa.Call)
-				if !isC {
-					continue
-				}
-				rid := ir.CallID(rc)
-				if rid != "io.ReadAll" && rid != "bytes.Buffer.ReadFrom" && rid != "io.Copy" && rid != "io.CopyN" {
-					continue
-				}
-				for _, a := range ir.CallArgs(rc) {
-					if d.objectOf(a, dj.fr).same(dval{call, di.fr}) {
-						if f := d.fieldSink(dval{rc, dj.fr}, 0); f != "" {
-							name = f
-						}
-					}
-				}
-			}
-			out = append(out, leaf{id: name, width: -1, order: "-", src: e})
+			boundedRun(dval{call, di.fr}, call, d.affine(args[1], di.fr, nil, 0))
 		case id == "builtin.len" || id == "builtin.cap" || strings.HasSuffix(id, ".Len") || strings.HasSuffix(id, ".Bytes") || strings.HasSuffix(id, ".String"):
 			continue
 		case id == "bytes.Buffer.WriteByte" && !isRead:
